@@ -1,8 +1,10 @@
 #!/bin/bash
-# usage: tools/seed_batch.sh "<PROP> <n>" ...   processes seeded changes from /tmp/mut-<PROP>/_mutants/<n>
+# usage: tools/seed_batch.sh "<PROP> <n>" ...   re-runs the checks against seeded changes kept under /verif/seeded
+# (or confirms new ones from /tmp/mut-<PROP>/_mutants/<n>)
 cd /verif
 for m in "$@"; do set -- $m; nos=""; [ -f seeded/$1-$2/meta.json ] && nos="--no-suite"
-python3 tools/seed_mutant.py $1 $2 /tmp/mut-$1/_mutants/$2 $nos 2>&1 | python3 -c "
+src=/tmp/mut-$1/_mutants/$2; [ -d $src ] || src=/verif/seeded/$1-$2
+python3 tools/seed_mutant.py $1 $2 $src $nos 2>&1 | python3 -c "
 import sys,json
 t=sys.stdin.read()
 try:
